@@ -7,3 +7,53 @@ def _zero_row_cat(prop, case, f):
     # a frame with 0 rows produces no row group, hence no dictionary page: the labels are nowhere in the file
     return (f.get("kind") == "cat_labels" and f.get("n_rows") == 0
             and f.get("got") == list(range(min(12, f.get("n_got", 0)))))
+
+
+def _prog_index(f):
+    pr = f.get("prog") or {}
+    ix = (pr.get("term") or {}).get("index")
+    return [] if ix in (None, False) else ([ix] if isinstance(ix, str) else list(ix))
+
+
+@pred("empty-selection-loses-partition-columns")
+def _empty_sel(prop, case, f):
+    # a handle sliced down to zero row groups derives no partition columns from (no) paths
+    parts = set(f.get("partition_on") or [])
+    drill = {"dir%d" % i for i in range(len(parts))}
+    if not parts or f.get("n_sel") != 0:
+        return False
+    if f.get("kind") == "columns":
+        missing = set(f.get("expected") or []) - set(f.get("got") or [])
+        extra = set(f.get("got") or []) - set(f.get("expected") or [])
+        return bool(missing) and not extra and (missing <= parts or missing <= drill)
+    if f.get("kind") == "program_raised" and f.get("exc") == "ValueError" and f.get("where") == "util.py:check_column_names":
+        msg = f.get("msg", "")
+        return any(("'%s'" % p_) in msg for p_ in parts | drill)
+    return False
+
+
+@pred("masked-column-as-index-coerced-to-int64")
+def _masked_index(prop, case, f):
+    # api._pre_allocate.get_type(index=True) maps every pandas masked dtype to "int64" for an index
+    names = _prog_index(f)
+    if len(names) != 1:
+        return False
+    dt = (f.get("index_dtypes") or {}).get(names[0], "")
+    if not (dt[:3] in ("Int", "UIn") or dt == "boolean"):
+        return False
+    if f.get("kind") == "cells" and f.get("index") and f.get("got_dtype") == "int64":
+        return True
+    if f.get("kind") == "program_raised" and f.get("exc") == "TypeError" and f.get("where") in ("core.py:read_col", "core.py:read_data_page_v2") \
+            and f.get("msg", "").startswith("int() argument must be"):
+        return True
+    return False
+
+
+@pred("multiindex-read-broken-under-pandas3")
+def _multiindex(prop, case, f):
+    # dataframe.empty builds a MultiIndex by assigning private attributes; under pandas 3 reads with >= 2 index levels
+    # raise, return nulls or crash the interpreter (the repository's own multi-index tests fail in this environment)
+    names = _prog_index(f)
+    if len(names) < 2:
+        return False
+    return f.get("kind") in ("program_raised", "cells", "process_crash", "index_levels", "row_count", "dtype", "index_names")
